@@ -188,4 +188,28 @@ theorem runAll_inv (S : Nat → Content → Prop) (fs : FS) (hinv : Inv S fs) (r
 theorem inv_empty : Inv (fun _ _ => False) FS.empty :=
   ⟨fun _ _ h => by simp [FS.empty] at h, fun _ => rfl⟩
 
+/-! ## the driver's `traceOn` is `runAll` observed after every run -/
+
+theorem traceOn_outcomes (exp : FS → Path → List Nat → Crash → FS × Bool) (ps : List Nat) (fs : FS)
+    (runs : List Run) : (traceOn exp ps fs runs).map (·.1) = (runAll exp fs runs).2 := by
+  induction runs generalizing fs with
+  | nil => simp [traceOn, runAll]
+  | cons r rs ih => simp [traceOn, runAll, ih]
+
+/-- step `k` of `traceOn` lists, for every requested output file, the content and the presence of the
+temporary sibling in the file system reached by the first `k+1` runs -/
+theorem traceOn_states (exp : FS → Path → List Nat → Crash → FS × Bool) (ps : List Nat) (fs : FS)
+    (runs : List Run) (k : Nat) (hk : k < runs.length) :
+    ((traceOn exp ps fs runs)[k]?).map (·.2.2.2) =
+      some (ps.map fun n => ((runAll exp fs (runs.take (k + 1))).1 (.out n),
+                             ((runAll exp fs (runs.take (k + 1))).1 (.tmp n)).isSome)) := by
+  induction runs generalizing fs k with
+  | nil => simp at hk
+  | cons r rs ih =>
+    cases k with
+    | zero => simp [traceOn, runAll]
+    | succ k =>
+      have hk' : k < rs.length := by simpa using hk
+      simpa [traceOn, runAll] using ih (genFile exp fs (.out r.path) r.overwrite r.chunks r.crash).1 k hk'
+
 end GenFile
